@@ -382,3 +382,27 @@ Proof.
   - rewrite (filter_ext P (fun f => negb (is_core f) && negb (mem_bytes f fc)) HP). exact Hlen.
 Qed.
 
+
+(** * WHERE + RETURN: the loaded columns are core, then the WHERE columns [fc], then the remaining RETURN fields,
+    so a filtered field listed in RETURN after another field sits at a DIFFERENT position in the input than in
+    the output.  For every WHERE column set and every RETURN order, in the segment flow and in the memtable flow,
+    the value under name n is the stored value of field n. *)
+Theorem where_return_exact : forall (A : Type) (d : A) fc ret fields o1 o2 (ev : bytes -> A),
+  (forall name val,
+     In (name, val) (flow_row d (selection_columns_ret fc ret fields o1) (selection_columns_ret fc ret fields o1)
+                              (Some ret) fields ev) -> val = ev name) /\
+  (forall name val, In (name, val) (memtable_flow_row d fc ret fields o1 o2 ev) -> val = ev name).
+Proof.
+  intros A d fc ret fields o1 o2 ev. split.
+  - intros name val H. apply (proj1 (projection_exact A d _ (Some ret) fields ev) name val H).
+  - apply (proj1 (memtable_flow_exact A d fc ret fields o1 o2 ev)).
+Qed.
+
+(** QUERY t WHERE b = 2 RETURN [a, b]: b is loaded before a, returned after it *)
+Example where_return_example :
+  selection_columns_ret [f_b] [f_a; f_b] [f_a; f_b] [] =
+    [nth 0 core_fields []; nth 1 core_fields []; nth 2 core_fields []; nth 3 core_fields []; f_b; f_a] /\
+  memtable_flow_row 0%Z [f_b] [f_a; f_b] [f_a; f_b] [] [] ev_ab
+  = [(nth 0 core_fields [], 0%Z); (nth 1 core_fields [], 0%Z); (nth 2 core_fields [], 0%Z); (nth 3 core_fields [], 0%Z);
+     (f_a, 1%Z); (f_b, 2%Z)].
+Proof. split; vm_compute; reflexivity. Qed.
